@@ -150,7 +150,6 @@ def leafOracle (t : QNode) (ev : Value) (r : String) : String :=
   else
     let expected := showMatch (Spec.run E t ev)
     if expected == r then "holds"
-    else if Spec.devTagCompare t then "fails leaf:D_tag_compare_ignores_key"
     else if Spec.devExistsTags t then "fails leaf:D_exists_tags_never"
     else "fails leaf:-"
 
